@@ -40,7 +40,7 @@ def _add(nodes, **nd):
     return len(nodes) - 1
 
 
-VARIANTS = ['twosite1d', 'twosite2d', 'twosite_lin', 'cat_axis', 'flatten_end']
+VARIANTS = ['twosite1d', 'twosite2d', 'twosite_lin', 'cat_axis', 'flatten_end', 'fullyconv1d', 'fullyconv2d', 'padmode1d', 'padmode2d']
 
 
 def custom_model(torch, rng, variant):
@@ -117,6 +117,55 @@ def custom_model(torch, rng, variant):
                     z = torch.cat([u, v], 1)
                 return s.c1(torch.relu(z))
         return M(), [cin, hw, hw], 'cat_%s(c=%d,%d+%d)' % (kwd, c, ca, cb)
+    if variant in ('fullyconv1d', 'fullyconv2d'):
+        # fully-convolutional classifier: the LAST conv reaches the output through (act) -> pooling -> flatten, no Linear head:
+        # it is output-connected, so its features must stay (frozen masker) and PIT / exported outputs have the same width
+        two = variant.endswith('2d')
+        cin, sz, ncls = rng.randint(1, 3), rng.choice([4, 6, 8]), rng.randint(2, 5)
+        pool = rng.choice(['gap', 'avg2', 'max2', 'none'])
+        act = rng.random() < 0.4
+        flat = rng.choice(['fn', 'module', 'method'])
+        Conv, BN = (nn.Conv2d, nn.BatchNorm2d) if two else (nn.Conv1d, nn.BatchNorm1d)
+
+        class M(nn.Module):
+            def __init__(s):
+                super().__init__()
+                s.p0 = nn.Identity() if two else nn.ConstantPad1d((2, 0), 0)
+                s.c0 = Conv(cin, c, 3, padding=1 if two else 0); s.bn0 = BN(c) if bn else nn.Identity()
+                s.head = Conv(c, ncls, 1)
+                s.pool = {'gap': (nn.AdaptiveAvgPool2d(1) if two else nn.AdaptiveAvgPool1d(1)), 'avg2': (nn.AvgPool2d(2) if two else nn.AvgPool1d(2)),
+                          'max2': (nn.MaxPool2d(2) if two else nn.MaxPool1d(2)), 'none': nn.Identity()}[pool]
+                s.fl = nn.Flatten()
+
+            def forward(s, x):
+                a = torch.relu(s.bn0(s.c0(s.p0(x))))
+                h = s.head(a)
+                if act:
+                    h = torch.relu(h)
+                h = s.pool(h)
+                if flat == 'fn':
+                    return torch.flatten(h, 1)
+                if flat == 'module':
+                    return s.fl(h)
+                return h.flatten(1)
+        return M(), ([cin, sz, sz] if two else [cin, sz]), '%s(c=%d,cls=%d,pool=%s,act=%s,flat=%s,bn=%s)%s' % (variant, c, ncls, pool, act, flat, bn, ' avgpool' if pool in ('gap', 'avg2') else '')
+    if variant in ('padmode1d', 'padmode2d'):
+        # padding > 0 with a padding_mode other than zeros (PIT carries padding_mode through import and export)
+        two = variant.endswith('2d')
+        cin, sz = rng.randint(1, 3), rng.randint(5, 8)
+        mode = rng.choice(['circular', 'reflect', 'replicate'])
+        k = rng.choice([3, 3, 5])
+        Conv, BN = (nn.Conv2d, nn.BatchNorm2d) if two else (nn.Conv1d, nn.BatchNorm1d)
+
+        class M(nn.Module):
+            def __init__(s):
+                super().__init__()
+                s.c0 = Conv(cin, c, k, padding=k // 2, padding_mode=mode); s.bn0 = BN(c) if bn else nn.Identity()
+                s.c1 = Conv(c, rng.randint(1, 3), 3, padding=1, padding_mode=rng.choice([mode, 'zeros']))
+
+            def forward(s, x):
+                return s.c1(torch.relu(s.bn0(s.c0(x))))
+        return M(), ([cin, sz, sz] if two else [cin, sz]), '%s(mode=%s,k=%d,c=%d,bn=%s)' % (variant, mode, k, c, bn)
     cin, hw = rng.randint(1, 3), rng.randint(2, 4)
     end = rng.choice([3, -1, None, 'kw3', 'module'])
 
@@ -320,7 +369,7 @@ def net_case(torch, job):
         o['spec'] = spec
         integer = job['integer']
         # averages are not integers: exact comparison only without average pooling
-        exact = integer and not any(nd['k'].startswith(('avgpool', 'gap')) for nd in spec['nodes'])
+        exact = integer and not any(nd['k'].startswith(('avgpool', 'gap')) for nd in spec['nodes']) and 'avgpool' not in (spec.get('custom') or '')
         if job['kind'] == 'custom':
             m = cm
             g = torch.Generator().manual_seed(seed)
@@ -346,6 +395,9 @@ def net_case(torch, job):
         if job['kind'] == 'pattern':
             first = [nm for nm, l in p.seed.named_modules() if isinstance(l, PITConv1d)][0]
             tpat = {first: (r, v)}
+        if job['kind'] == 'custom' and job['variant'] == 'padmode1d':
+            # receptive-field / dilation pruning is claimed for causally padded layers only: keep the time masks open here
+            tpat = {nm: (l.kernel_size[0], 0) for nm, l in p.seed.named_modules() if isinstance(l, PITConv1d)}
         # the masks may be written on a wrapper that has ALREADY been observed with other mask values (summary / export /
         # str / the mask properties): every observer must follow the current parameters, however they were written
         o['preobserved'] = []
@@ -526,7 +578,13 @@ def layer_case(torch, job):
     cout = cin if dw else rng.randint(1, 4)
     T = rng.randint(3, 8)
     g = torch.Generator().manual_seed(job['seed'])
-    conv = nn.Conv1d(cin, cout, K, stride=s, dilation=d0, groups=cin if dw else 1, bias=job['bias']).double()
+    pmode = job.get('padmode')
+    if pmode:
+        # symmetric padding with a non-zero padding mode: outside the hand model (zero padding only) -> compared with torch's own
+        # convolution on the masked weights, i.e. with what the exported layer computes (time masks stay open: non-causal)
+        T = max(T, (K - 1) * d0 + 2)
+        P = rng.randint(1, min(2, T - 1))
+    conv = nn.Conv1d(cin, cout, K, stride=s, dilation=d0, groups=cin if dw else 1, bias=job['bias'], **({'padding': P, 'padding_mode': pmode} if pmode else {})).double()
     with torch.no_grad():
         conv.weight.copy_(torch.randint(-3, 4, conv.weight.shape, generator=g).double())
         if conv.bias is not None:
@@ -536,7 +594,7 @@ def layer_case(torch, job):
     tmk = PITFrozenTimestepMasker(K) if frozen else PITTimestepMasker(K)
     dmk = PITFrozenDilationMasker(K) if frozen else PITDilationMasker(K)
     alpha = [rng.choice(pm.BIG) if rng.random() < 0.5 else rng.choice(pm.SMALL) for _ in range(cout)]
-    beta, gamma = pm.beta_for(rng, K, job['r'], 'adv'), pm.gamma_for(rng, K, job['v'], 'adv')
+    beta, gamma = pm.beta_for(rng, K, K if pmode else job['r'], 'adv'), pm.gamma_for(rng, K, 0 if pmode else job['v'], 'adv')
     with torch.no_grad():
         fm.alpha.copy_(torch.tensor(alpha))
         if not frozen:
@@ -559,14 +617,22 @@ def layer_case(torch, job):
         layer.bn = b.double().eval()
         bn = bn_affine(layer.bn, torch)
     x = torch.randint(-3, 4, (1, cin, T), generator=g).double()
-    xp = nn.functional.pad(x, ((K - 1) * d0, 0))
+    xp = x if pmode else nn.functional.pad(x, ((K - 1) * d0, 0))
     with torch.no_grad():
         y = layer(xp)[0]
+    ref = None
+    if pmode:
+        with torch.no_grad():
+            yr = conv(x)[0]                                  # the plain layer with the same parameters (all taps kept)
+            if layer.bn is not None:
+                yr = layer.bn(yr.unsqueeze(0))[0]
+            yr = yr * layer.features_mask.view(-1, 1)
+        ref = [[int(v) for v in c] for c in yr.tolist()]
     return {'job': job, 'cin': cin, 'cout': cout, 'w': [[[int(v) for v in r_] for r_ in c] for c in conv.weight.tolist()],
             'b': None if conv.bias is None else [int(v) for v in conv.bias.tolist()], 'bn': bn, 'frozen': frozen,
             'alpha': alpha, 'beta': [float(v) for v in tmk.beta.detach()], 'gamma': [float(v) for v in dmk.gamma.detach()],
             'mout': _bools(layer.features_mask), 'tm': _bools(layer.time_mask), 'x': [[int(v) for v in c] for c in x[0].tolist()],
-            'y': [[int(v) for v in c] for c in y.tolist()], 'y_is_int': bool((y == y.round()).all())}
+            'y': [[int(v) for v in c] for c in y.tolist()], 'y_is_int': bool((y == y.round()).all()), 'ref': ref}
 
 
 def worker(args):
